@@ -48,6 +48,47 @@ finding(id="KF-C09-repeat-default-axis", property="C09", status="open",
                "when": "fn == 'repeat' and p['axis'] == 'omitted' and arg_ndim[0] >= 2"},
         witness=witness(w_repeat))
 
+def _reduce(rec, fn, args, p, spelling="numpoly"):
+    from harness.actions import reduce_fields
+    rec.do("reduce", args, fn=fn, p=p, spelling=spelling, **reduce_fields(fn, p))
+
+
+def w_matmul(rec):
+    a = rec.new(poly((2, 2), (0,), [[0], [1]], [[1, 2, 3, 4], [1, 0, 0, 1]]))
+    b = rec.new(poly((2,), (0,), [[0], [1]], [[2, 1], [0, 1]]))
+    _reduce(rec, "matmul", [a, b], {})
+
+
+finding(id="KF-C10-matmul-1d", property="C10", status="open",
+        what="matmul with a 1-d operand does not follow numpy's promote-and-squeeze rule: (n,k)@(k,) returns the (n,k) array of element-wise row products, (k,)@(k,m) keeps a leading axis of length 1, (k,)@(k,) returns a (k,) array; the (n,k)@(k,) result is pinned by test_matmul and the docstring, so it cannot be repaired without editing the suite",
+        match={"act": "reduce", "clauses": ["shape", "value"],
+               "when": "fn == 'matmul' and (arg_ndim[0] == 1 or arg_ndim[1] == 1)"},
+        witness=witness(w_matmul))
+
+
+def w_diff_empty(rec):
+    a = rec.new(poly((2,), (0,), [[0], [1]], [[1, 2], [1, 1]]))
+    _reduce(rec, "diff", [a], {"axis": -1, "n": 2})
+
+
+finding(id="KF-C10-diff-empty", property="C10", status="open",
+        what="diff whose result is empty (n >= extent along the axis) returns a 0-d polynomial built from unwritten memory instead of an array with a zero-length axis: numpoly cannot represent empty polynomial arrays (EMPTY.coefficients == [] is pinned by test_scalars)",
+        match={"act": "reduce", "clauses": ["shape", "value"],
+               "when": "fn == 'diff' and n > 0 and n >= arg_shape[0][axes[0]] + sum([(s[axes[0]] if len(s) else 1) for s in arg_shape[1:]])"},
+        witness=witness(w_diff_empty))
+
+
+def w_ediff1d(rec):
+    a = rec.new(poly((1,), (0,), [[0], [1]], [[1], [1]]))
+    _reduce(rec, "ediff1d", [a], {})
+
+
+finding(id="KF-C10-ediff1d-size1", property="C10", status="open",
+        what="ediff1d of an array with fewer than two elements returns one element of unwritten memory instead of an empty difference (same root cause: empty polynomial arrays are not representable)",
+        match={"act": "reduce", "clauses": ["shape", "value"],
+               "when": "fn == 'ediff1d' and arg_size[0] <= 1"},
+        witness=witness(w_ediff1d))
+
 # --------------------------------------------------------------------- fixed
 FIXED = [
     ("C01", "8ccbe55", "power with an array exponent: transposed / wrongly broadcast result for 3-d operands and for base and exponent of different ndim"),
@@ -55,6 +96,8 @@ FIXED = [
     ("C09", "7971e06+6cee4eb", "ndpoly.values ignored strides: reshape / broadcast_arrays / expand_dims / tile of a transposed array misplaced elements"),
     ("C12", "4727456", "polynomial_from_attributes left coefficients of int8..int32, uint8..uint64, float16/32, complex64 unwritten (uninitialised memory) and rejected read-only inputs (diag, diagonal)"),
     ("C09", "7001aa0", "choose failed unless all choices had one common shape with >= 1 dimension"),
+    ("C10", "b0345b4", "prod over a tuple of axes kept the reduced axes (keepdims=False) and returned partial products for negative axes"),
+    ("C10", "e1f0ff9", "det of 1x1 matrices returned 0"),
 ]
 
 
